@@ -645,9 +645,62 @@ def run(ctx, drv):
         ctx.nontrivial.add(("exhaustive", j))
 
 
+def run_texts(ctx, drv, texts, origin):
+    """batch version of check_one (driver batches of 2000 texts); stops after the first violations"""
+    n = 0
+    it = iter(texts)
+    while True:
+        chunk = list(itertools.islice(it, 2000))
+        if not chunk:
+            break
+        reps = drv.batch([{"op": "clex", "text": t, "univ": False} for t in chunk])
+        for t, rep in zip(chunk, reps):
+            isrc, ipar = observe(t, False)
+            corr, finds, viol, info = judge(t, rep, isrc, ipar, False)
+            n += 1
+            ctx.evaluations += 1
+            ctx.dist[origin] += 1
+            case = {"text": t, "univ": False, "origin": origin}
+            for op, im, mo in corr:
+                if len(ctx.corr_breaks) < 20:
+                    ctx.corr_break(op, case, im, mo)
+            for f in finds:
+                _known(ctx, f, case)
+            for v in viol:
+                ctx.violation(v, case)
+        if len(ctx.violations) >= 5:
+            break
+    return n
+
+
+def table_search(ctx, drv):
+    """texts aimed at the cells where the transition table regenerated from the running `c_cleaner` /
+    `c_file_source` differs from the Lean model's cells (harness/props/clean_diff.py)"""
+    from harness.props import clean_diff
+
+    sus = clean_diff.c_suspects(drv)
+    if sus["error"]:
+        ctx.notes.append("search: the transition table cannot be regenerated: " + sus["error"][:300])
+    if sus["cells"]:
+        ctx.notes.append(f"search: code and model differ in {len(sus['cells'])}{'+' if len(sus['cells']) >= 40 else ''} "
+                         f"table cell(s), e.g. " + " | ".join(sus["cells"][:4]))
+        ctx.extra["table_diff_cells"] = sus["cells"]
+    if not sus["stacks"]:
+        return 0
+    n = run_texts(ctx, drv, clean_diff.c_biased_texts(sus), "search-table-cells")
+    ctx.notes.append(f"search: {n} texts aimed at {len(sus['stacks'])} cleaner stack(s) with differing cells")
+    return n
+
+
 def search(ctx, drv):
-    """failing-input search after a broken obligation / correspondence: larger exhaustive bound, 8x random"""
+    """failing-input search after a broken obligation / correspondence: first texts aimed at the differing
+    cells of the regenerated transition table, then larger exhaustive bound, 8x random"""
     if drv is None:
+        return
+    I.mods()
+    table_search(ctx, drv)
+    if ctx.violations:
+        minimise_violations(ctx, drv)
         return
     n = exhaustive(ctx, 7)
     ctx.notes.append(f"search: exhaustive bound raised to 7 ({n} texts)")
